@@ -38,8 +38,8 @@ pub struct RunResult {
     pub stats: RunStats,
     pub faults_fired: Vec<(u8, i32)>,
     pub op_counts: BTreeMap<&'static str, u64>,
-    /// fault sites passed: [seam calls, process_events calls]
-    pub sites: [u32; 2],
+    /// fault sites passed: [seam calls, process_events calls, waits]
+    pub sites: [u32; 3],
     pub c08_cells: BTreeMap<String, u64>,
 }
 
@@ -178,7 +178,7 @@ pub fn run(p: &Program, record: bool) -> RunResult {
         stats,
         faults_fired: hk.faults_fired,
         op_counts,
-        sites: [hk.seam_calls[0], hk.pe_calls],
+        sites: [hk.seam_calls[0], hk.pe_calls, hk.wait_calls],
         c08_cells: hk.c08_cells,
     }
 }
@@ -723,6 +723,22 @@ pub fn wait_hook(
             sim.violate("wait.livelock", vec![], "one dispatch went back to the poller more than 300 times without returning (woken up, nothing to deliver, waits again: it would never return)".into());
         }
         return Err(io::Error::new(io::ErrorKind::Other, "simulation ended"));
+    }
+    // fault site 5: the n-th wait of the run fails with a poller error (not EINTR, which the
+    // polling crate absorbs): the dispatch returns that error, nothing has been collected
+    {
+        let mut hk = sim.hk.borrow_mut();
+        let n = hk.wait_calls;
+        hk.wait_calls += 1;
+        let hit = hk.faults.iter().find(|f| f.site == 5 && f.nth == n).map(|f| if f.errno == 0 { libc::EBADF } else { f.errno });
+        if let Some(errno) = hit {
+            hk.faults_fired.push((5, errno));
+            hk.expected_err = true;
+            if hk.record {
+                hk.trace.push(format!("  fault injected: the wait fails with errno {}", errno));
+            }
+            return Err(io::Error::from_raw_os_error(errno));
+        }
     }
     let t_enter = sim.now_ns();
     let req = timeout.map(|d| d.as_nanos().min(u64::MAX as u128) as u64);
